@@ -25,12 +25,13 @@ META = {
             "distinct by (A, B, tree)",
     "explanation": "",
     "assumptions": ["ACL grammar: 6 top rule blocks (literal, keyed block with children, interface block, top-level %global, "
-                    "same block from a second generator, block with a '~ %global' child) x cant_delete flags; rule languages of "
-                    "local vs global vs reverse forms are pairwise disjoint (decided by z3 on the compiled regexes), so the "
-                    "result does not depend on annet's shared-character specificity heuristic",
+                    "same block from a second generator, block with a '~ %global' child) x cant_delete flags; in that base grammar the "
+                    "rule languages of local vs global vs reverse forms are pairwise disjoint (decided by z3 on the compiled regexes); "
+                    "the prio / overlap / tie blocks have competing matches, which RefAcl ranks by %prio, shared-symbol specificity of "
+                    "the pattern text and collection order (direct before negated, local before %global, text order)",
                     "vendor huawei (negation word 'undo')"],
-    "outside": ["filter-ACL ignore rules ('!')", "Juniper inactive: normalisation", "overlapping local/global rules (specificity heuristic)",
-                "%prio"],
+    "outside": ["filter-ACL ignore rules ('!')", "Juniper inactive: normalisation",
+                "monotonicity under a high-%prio %global rule that shadows a local rule with children (the law does not hold there)"],
     "bounds": {},
 }
 
